@@ -19,8 +19,9 @@ RULE = ("Same session generator as C01 (stream, live template, option vector, ph
         "the timing reference. distinct = canonical JSON of the case.")
 ASSUMPTIONS = [
     "vt/shims stand in for flask_login, sqlalchemy_jsonfield, dotenv, netifaces; harness-controlled clock",
-    "number mode tolerance: half a segment duration + (loops+1) x |reference duration in the track's timescale "
-    "- the track's own duration| (the per-loop drift correction the statement names)",
+    "number mode tolerance: half of the longest stored segment duration of the track (at least half the advertised "
+    "@duration, rounded up) + (loops+1) x |reference duration in the track's timescale - the track's own duration| "
+    "(the per-loop drift correction the statement names)",
     "alignment: stored start of the delivered segment == presentation time mod floor(reference_duration x "
     "timescale / reference_timescale)",
 ]
@@ -46,13 +47,13 @@ def check_live(case, cap: int) -> Outcome:
     out = Outcome()
     T, url, consts = session.live_case_to_request(env, case)
     s = session.Session(env, T, url).load()
-    out.cls("tpl:" + case["template"], "stream:" + case["stream"])
+    out.cls("tpl:" + case["template"], "stream:" + session.stream_label(case["stream"]))
     if s.resp.status != 200 or s.mpd is None or s.mpd.type != "dynamic" or s.mpd.ast is None:
         out.trivial = "no-live-manifest"
         return out
     m = s.mpd
     now = s.now
-    files = env.streams[case["stream"]]["files"]
+    files = env.streams[consts["stream"]]["files"]
     nontrivial = False
     n_checked = 0
     for rep in m.reps:
@@ -132,7 +133,10 @@ def check_live(case, cap: int) -> Outcome:
                 if adv["mode"] == "number":
                     nominal = (n - tpl.start_number) * tpl.duration
                     loops = nominal // ref_in_ts if ref_in_ts else 0
-                    tol = Fraction(tpl.duration, 2) + (loops + 1) * drift
+                    # "half a segment duration": with irregular stored durations the server delivers the
+                    # stored segment whose start is nearest the nominal time, so the bound is half of the
+                    # longest stored segment (never less than half the advertised duration), rounded up
+                    tol = Fraction(max(max(sc["durations"]), tpl.duration) + 1, 2) + (loops + 1) * drift
                     if abs(tfdt - nominal) > tol:
                         out.fail(f"number/{ctype}/tfdt-far-from-nominal",
                                  f"{where}: tfdt {tfdt} nominal {nominal} tolerance {float(tol)} (loops {loops}, drift {drift})")
@@ -158,7 +162,7 @@ def check_live(case, cap: int) -> Outcome:
             if pres >= ref_in_ts:
                 nontrivial = True
                 out.cls("loops>=1")
-            if rep.id != env.streams[case["stream"]].get("timing_ref"):
+            if rep.id != env.streams[consts["stream"]].get("timing_ref"):
                 nontrivial = True
     out.weight = max(1, n_checked)
     out.nontrivial = nontrivial and n_checked > 0
@@ -177,11 +181,12 @@ class LiveSegments(Engine):
 
     def strategy(self, tier):
         from hypothesis import strategies as st
-        from .. import app, strategies
+        from .. import app, strategies, synth
         from .c01 import live_templates
         app.boot()
         return st.fixed_dictionaries({
-            "stream": st.sampled_from(["bbb", "tears"]),
+            "stream": st.one_of(st.sampled_from(["bbb", "tears"]),
+                                st.builds(lambda sp: {"synth": sp}, synth.stream_specs())),
             "template": st.sampled_from(live_templates()),
             "opts": strategies.live_option_vector(with_events=False),
             "clock": strategies.live_clock(),
